@@ -283,7 +283,7 @@ def run_scm_scenario(job):
             return rec
         want = bs.snapshot(os.path.join(W, "dev/dist/p0/1/workspace"))
         shutil.copytree(W, saved, symlinks=True)
-        for k in range(1, job.get("max_k", 40) + 1):
+        for k in (job["only_k"] if job.get("only_k") else range(1, job.get("max_k", 40) + 1)):
             if time.time() > job["deadline"]:
                 rec["truncated"] = True
                 break
@@ -478,8 +478,7 @@ def correspond(ctx):
 def replay(ctx, case):
     if case.get("scm"):
         rec = run_scm_scenario(dict(repo=ctx.repo, tmp=ctx.tmp, key=case["key"], scm=case["scm"],
-                                    deadline=time.time() + 900, max_k=40))
-        rec["cases"] = [c for c in rec["cases"] if c["k"] == case["k"]]
+                                    deadline=time.time() + 900, only_k=[case["k"]]))
         judge_scm(ctx, rec)
         return
     job = dict(repo=ctx.repo, tmp=ctx.tmp, key=case["key"], n_prefix=int(case["key"].rsplit("-", 1)[1]) % 3,
